@@ -280,8 +280,10 @@ func switchThreading(v *VM) *val.Val {
 		case OP_OBJ_LOAD:
 			idx, w := v.readMediumInt(v.pc)
 			v.pc += w
+			name, w := v.readConst(v.pc)
+			v.pc += w
 			o := v.Pop().Obj()
-			v.Push(o.V[idx])
+			v.Push(o.Load(idx, name.(string)))
 
 		// -----------------------------------------------
 		case OP_LEN_STR:
